@@ -1,5 +1,6 @@
 """Per-property check definitions (see vcheck.py for the shared machinery)."""
 import json
+import random
 import os
 
 from vcheck import (Infra, Tally, build_harness, finish, load_known, model_check, read_ndjson, run_tlc, run_vh,
@@ -715,12 +716,12 @@ def c15(ctx):
     q = ctx.quick()
     known, asbuilt = devsets("C15")
     asbuilt = (asbuilt & REC_DEVS) | known
-    mod = 211 if q else 53
-    consts = {"MaxC": 2, "MaxL": 2 if q else 3, "MaxR": 2, "Dev": set(), "EmitMod": mod, "EmitRes": ctx.seed % mod}
+    mod = 41 if q else 53
+    consts = {"MaxC": 2, "MaxL": 2 if q else 3, "MaxR": 1 if q else 2, "Dev": set(), "EmitMod": mod, "EmitRes": ctx.seed % mod}
     mc = model_check(ctx, "MC_Reconcile", dict(constants=consts, invariants=["Refines", "Consequences", "RevocationSurvives", "SyncGuarantees"],
                                                constraints=["Emit"]), workers=8, timeout=4 * 3600)
     for d in sorted(REC_DEVS):      # teeth: each listed deviation breaks an invariant in the model
-        r = run_tlc(ctx, "MC_Reconcile", dict(constants=dict(consts, MaxL=2, Dev={d}, EmitMod=1, EmitRes=0),
+        r = run_tlc(ctx, "MC_Reconcile", dict(constants=dict(consts, MaxL=2, MaxR=1, Dev={d}, EmitMod=1, EmitRes=0),
                                               invariants=["Refines", "RevocationSurvives", "SyncGuarantees"]), workers=4, timeout=1800)
         if r.error or not r.violated:
             raise Infra("deviation %s was expected to break an invariant (vacuity guard): %s" % (d, r.error or "no violation"))
@@ -732,10 +733,27 @@ def c15(ctx):
             scns.append(x)
     if not scns:
         raise Infra("TLC emitted no scenarios")
+    # the special shapes are replayed in full, the rest as a seeded sample
+    special = [x for x in scns if x.get("special")]
+    rest = [x for x in scns if not x.get("special")]
+    random.Random(ctx.seed).shuffle(rest)
+    random.Random(ctx.seed + 1).shuffle(special)
+
+    def E(u, k, ref="", t=None, tg=(), skip=False):
+        return {"u": u, "k": k, "ref": ref, "t": (u if t is None and k != "ann" else (t or 0)), "tg": list(tg), "skip": skip}
+    # shapes beyond the quick bound that are always replayed: an entry of a suffix with a revocation and a later plain note
+    # (both directions), and a reference reset on one side while the other side revokes a shared entry of it
+    fixed = [{"t": "SCN", "C": [E(1, "ref", "main")], "L": [], "R": [E(2, "ref", "main"), E(3, "ann", tg=[2], skip=True), E(4, "ann", tg=[2])],
+              "kind": "ff", "special": True},
+             {"t": "SCN", "C": [E(1, "ref", "main")], "L": [E(2, "ref", "feat"), E(3, "ann", tg=[2], skip=True), E(4, "ann", tg=[2])], "R": [],
+              "kind": "ahead", "special": True},
+             {"t": "SCN", "C": [E(1, "ref", "main"), E(2, "ref", "main")], "L": [E(3, "ref", "main", t=1), E(4, "ref", "feat")],
+              "R": [E(5, "ann", tg=[2], skip=True)], "kind": "replayed", "special": True}]
+    scns = fixed + special[:20 if q else 600] + rest[:40 if q else 1200]
     scn_path = os.path.join(ctx.scratch, "scn.ndjson")
     write_ndjson(scn_path, scns)
     trace = os.path.join(ctx.scratch, "trace.ndjson")
-    run_vh(ctx, ["reconcile", "-scn", scn_path, "-out", trace, "-seed", ctx.seed, "-n", 50 if q else 1200], timeout=6 * 3600)
+    run_vh(ctx, ["reconcile", "-scn", scn_path, "-out", trace, "-seed", ctx.seed], timeout=6 * 3600)
     cls = validate_trace(ctx, "Trace_Reconcile", trace, {"Known": known, "AsBuilt": asbuilt}, shards=4 if q else 12)
     lines = {x["id"]: x for x in read_ndjson(trace)}
     tally = Tally(ctx)
@@ -850,6 +868,22 @@ def c08(ctx):
         return {"a": "grow", "e": {"k": "ref", "ref": "main", "s": s, "tree": 1, "par": par, "v": "", "tg": [], "apps": [], "crs": []}}
     scns.append({"t": "SCN", "acts": [ref("p3", 0), ref("p1", 2), {"a": "populate"}, {"a": "verify", "mode": "full", "ref": "main"},
                                       {"a": "verify", "mode": "latest", "ref": "main"}, {"a": "verify", "mode": "full", "ref": "main"}]})
+    # recovery histories beyond the exhaustive bound, with the cache populated at every point and verification repeated: a revoked
+    # violation, optionally a second violation that is not revoked, the fix, then two or three full verifications
+    def reft(s, par, tree):
+        return {"a": "grow", "e": {"k": "ref", "ref": "main", "s": s, "tree": tree, "par": par, "v": "", "tg": [], "apps": [], "crs": []}}
+
+    def ann(pos):
+        return {"a": "grow", "e": {"k": "ann", "tg": [pos], "s": "p1", "ref": "", "tree": 0, "par": 0, "v": "", "apps": [], "crs": []}}
+    vf = {"a": "verify", "mode": "full", "ref": "main"}
+    for second_bad in (False, True):
+        for pop_at in range(0, 6):
+            acts = [reft("p1", 0, 1), reft("p3", 2, 2), ann(3)]           # log positions: 1 policy, 2 good, 3 violation, 4 its revocation
+            if second_bad:
+                acts.append(reft("p3", 3, 2))                              # 5: a second violation nobody revokes
+            acts.append(reft("p1", 5 if second_bad else 3, 1))             # the fix restores the good tree
+            acts = acts[:min(pop_at, len(acts))] + [{"a": "populate"}] + acts[min(pop_at, len(acts)):]
+            scns.append({"t": "SCN", "acts": acts + [vf, vf, {"a": "verify", "mode": "latest", "ref": "main"}, vf]})
     if not pol or not scns:
         raise Infra("TLC emitted no scenarios")
     d = ctx.sub("c08")
